@@ -197,9 +197,18 @@ def read (s : Sess) (n : Nat) : ReadRes × Sess :=
 
 /-! ## Application programs -/
 
+/-- The server's input loop processes the open-session request that created the session: it
+    happens once, first among the arrivals, but at an instant the server APPLICATION does not
+    control — `Accept` hands the session out before (the underlay queues the request for the
+    session's input loop, then announces the session), so the application's first `Write` calls may
+    be numbered before the open-session response. -/
+def acceptOpen (s : Sess) (p : Bytes) : List Seg × Sess :=
+  if s.nextRecv = 0 then input s ⟨.openReq, 0, 0, none, p⟩ else ([], s)
+
 inductive Op where
   | write (leOpen : Option LE) (les : Nat → Option LE) (b : Bytes)
   | close
+  | accept (p : Bytes)
 
 /-- run the application's calls in order; the segments queued, in order -/
 def run : Sess → List Op → List Seg × Sess
@@ -212,12 +221,17 @@ def run : Sess → List Op → List Seg × Sess
     let r := close s
     let r2 := run r.2 ops
     (r.1 ++ r2.1, r2.2)
+  | s, .accept p :: ops =>
+    let r := acceptOpen s p
+    let r2 := run r.2 ops
+    (r.1 ++ r2.1, r2.2)
 
 /-- the bytes of the `Write` calls made while the session was open (the ones that return success) -/
 def accepted : Sess → List Op → Bytes
   | _, [] => []
   | s, .write lo les b :: ops => (if s.open then b else []) ++ accepted (write s lo les b).2 ops
   | s, .close :: ops => accepted (close s).2 ops
+  | s, .accept p :: ops => accepted (acceptOpen s p).2 ops
 
 /-- deliver segments in order; what the session emits is not followed here -/
 def inputAll (s : Sess) (gs : List Seg) : Sess := gs.foldl (fun s g => (input s g).2) s
@@ -230,6 +244,42 @@ def readMany : Sess → List Nat → List Bytes × Sess
     match read s n with
     | (.data b, s') => let r := readMany s' ns; (b :: r.1, r.2)
     | (_, s') => let r := readMany s' ns; (r.1, r.2)
+
+/-! ## Arrivals and reads in any interleaving -/
+
+inductive Ev where
+  | input (g : Seg)
+  | read (n : Nat)
+
+/-- run arrivals and `Read` calls in the given order; the byte strings the reads returned -/
+def runEv : Sess → List Ev → List Bytes × Sess
+  | s, [] => ([], s)
+  | s, .input g :: es => runEv (input s g).2 es
+  | s, .read n :: es =>
+    match read s n with
+    | (.data b, s') => let r := runEv s' es; (b :: r.1, r.2)
+    | (_, s') => runEv s' es
+
+def arrivals : List Ev → List Seg
+  | [] => []
+  | .input g :: es => g :: arrivals es
+  | .read _ :: es => arrivals es
+
+/-- the stream offsets at which a segment ends -/
+def boundaries : Nat → List Nat → List Nat
+  | _, [] => []
+  | pos, n :: ns => (pos + n) :: boundaries (pos + n) ns
+
+/-- Is a trace of successive `Read` calls — (buffer size, bytes returned) — possible for a session
+    that receives segments with these payload lengths in order, at instants the observer does not
+    know?  Every call returns between 1 byte and the buffer size, never beyond what is sent, and a
+    SHORT read has taken everything that had arrived: it ends where a segment ends
+    (`Mieru.C01.short_read_ends_on_segment_boundary`). -/
+def acceptTrace (lens : List Nat) : Nat → List (Nat × Nat) → Bool
+  | _, [] => true
+  | pos, (req, got) :: tr =>
+    (0 < got && got ≤ req && pos + got ≤ lens.sum && (got == req || (boundaries 0 lens).contains (pos + got))) &&
+      acceptTrace lens (pos + got) tr
 
 /-! ## What `writeOneSegment` adds (stream transport) -/
 
